@@ -51,8 +51,8 @@ ASSUMPTIONS = ['the translated fragments are the attribute-passing part of copy_
                'meet that case',
                'optimize only (proviso of C04, inherited): the pass may replace a register whose next value is a compile-time '
                'constant by that constant; a from-reset difference (Output traces or final memory contents) of the optimize result is NOT flagged when it disappears once '
-               'every register the pass eliminated (registers of the source with no counterpart in the result) starts out holding '
-               'the value it settles to; such cases are counted (optimize_constant_register_proviso); any other difference is a '
+               'every register the pass eliminated whose next value is (transitively) a compile-time constant (computed structurally '
+               'on the source; registers eliminated for any other reason are not compensated) starts out holding that constant; such cases are counted (optimize_constant_register_proviso); any other difference is a '
                'violation; copy_block and synthesize are compared strictly',
                'Python object aliasing is observed on the implementation only (id() sets, fingerprints before/after); '
                'the heap model proves disjointness => independence but is not itself tied to CPython',
@@ -453,18 +453,91 @@ def attribute(api, src, src_trace, res_trace, ncyc):
     return '?', ''
 
 
+def compile_time_constants(block):
+    """{wire: value} for every wire whose value is a compile-time constant in the steady state: Consts, gates all of
+    whose arguments are constants (plus the absorbing cases x&0, x|all-ones, mux with a constant select), and registers
+    whose next value is such a constant (transitively).  Documented op table, plain Python."""
+    val = {w: w.val for w in block.wirevector_subset(pyrtl.Const)}
+    nets = list(block.logic)
+
+    def mask(w):
+        return (1 << w.bitwidth) - 1
+
+    def ev(n):
+        a = n.args
+        d = n.dests[0]
+        known = [val.get(x) for x in a]
+        op = n.op
+        if op == '&' and any(v == 0 for v in known if v is not None):
+            return 0
+        if op == 'n' and any(v == 0 for v in known if v is not None):
+            return max(mask(a[0]), mask(a[1])) & mask(d)
+        if op == '|' and any(v is not None and v == mask(x) for v, x in zip(known, a)) and a[0].bitwidth == a[1].bitwidth:
+            return mask(a[0]) & mask(d)
+        if op == 'x' and known[0] is not None:
+            v = known[1] if known[0] == 0 else known[2]
+            return None if v is None else v & mask(d)
+        if any(v is None for v in known):
+            return None
+        if op in 'wr':
+            r = known[0]
+        elif op == '~':
+            r = ~known[0] & mask(a[0])
+        elif op == '&':
+            r = known[0] & known[1]
+        elif op == '|':
+            r = known[0] | known[1]
+        elif op == '^':
+            r = known[0] ^ known[1]
+        elif op == 'n':
+            r = ~(known[0] & known[1]) & max(mask(a[0]), mask(a[1]))
+        elif op == '+':
+            r = known[0] + known[1]
+        elif op == '-':
+            r = known[0] - known[1]
+        elif op == '*':
+            r = known[0] * known[1]
+        elif op == '<':
+            r = int(known[0] < known[1])
+        elif op == '>':
+            r = int(known[0] > known[1])
+        elif op == '=':
+            r = int(known[0] == known[1])
+        elif op == 'c':
+            r = 0
+            for v, x in zip(known, a):
+                r = (r << x.bitwidth) | v
+        elif op == 's':
+            r = sum(((known[0] >> i) & 1) << k for k, i in enumerate(n.op_param))
+        else:
+            return None
+        return r & mask(d)
+
+    changed = True
+    while changed:
+        changed = False
+        for n in nets:
+            if n.op in 'm@' or not n.dests or n.dests[0] in val:
+                continue
+            v = ev(n)
+            if v is not None:
+                val[n.dests[0]] = v
+                changed = True
+    return val
+
+
 def constant_register_proviso(src, res, inputs, memmap_by_id, src_sim_mems):
-    """registers of the source with no counterpart in the optimize result = registers the pass eliminated.
-    Returns the source's traces when each of them starts out holding the value it settles to (its
-    compile-time constant), or None when the pass eliminated no register."""
+    """C04's sanctioned case only: registers of the source that the optimize result no longer has AND whose next
+    value is (transitively) a compile-time constant.  Returns the source's traces when each of them starts out holding
+    that constant, or None when there is no such register.  A register eliminated for any other reason (e.g. merged
+    with another one) is NOT compensated."""
+    consts = compile_time_constants(src)
     regs = sorted((r for r in src.wirevector_subset(pyrtl.Register)
-                   if not isinstance(res.wirevector_by_name.get(r.name), pyrtl.Register)), key=lambda w: w.name)
+                   if not isinstance(res.wirevector_by_name.get(r.name), pyrtl.Register) and r in consts),
+                  key=lambda w: w.name)
     if not regs:
         return None
-    depth = len(src.wirevector_subset(pyrtl.Register)) + 1
-    warm = [inputs[t % len(inputs)] for t in range(depth + 1)]
-    _, wtr = simulate(src, warm, memmap_by_id, src_mems=src_sim_mems)
-    settled = {r: wtr.trace[r.name][depth] for r in regs}
+    settled = {r: consts[r] for r in regs}
     psim, ptr = simulate(src, inputs, memmap_by_id, regmap=settled, src_mems=src_sim_mems)
     return {'regs': {r.name: v for r, v in settled.items()},
             'trace_all': {nm: list(v) for nm, v in ptr.trace.items()},
